@@ -6,7 +6,7 @@ Correspondence: event scripts (length <= 14 after the prefix) over the whole alp
 future / callback / try_send style on queues of capacity 1..4, enable, disable, set-decode,
 shutdown, drop handle, abort, connect results, frames, partial frames, garbage, EOF, read error,
 write fault, slow write, virtual time - on the real ClientLoop and on the model (eager schedule).
-Thorough tier: every script over a reduced alphabet up to length 5 after `E CO` (exhaustive).
+Thorough tier: every script up to length 6 over two reduced alphabets after `E CO` (exhaustive sweep).
 """
 import itertools
 from checks import clientlib as cl
@@ -45,7 +45,9 @@ def directed():
     return cases
 
 
-SYMS = ['Sf', 'Sx', 'D', 'E', 'F*', 'T*', 'X', 'A', 'Z', 'H']
+# two reduced alphabets, each swept exhaustively up to length 6 after `E CO` in the thorough tier
+ALPHABETS = [['Sf', 'Sx', 'F*', 'T*', 'X', 'A'], ['Sf', 'D', 'E', 'Z', 'H', 'T*']]
+SYMS = sorted(set(ALPHABETS[0] + ALPHABETS[1]))
 
 
 def concretize(cfg, prefix, syms):
@@ -75,16 +77,69 @@ def concretize(cfg, prefix, syms):
     return (cfg, sc)
 
 
+def gen_ties(r, n):
+    """two select! branches ready at once: a frame and a command (try_send, so it is in the queue at once) arrive before the
+    task runs again; the implementation may take either first - both orders are model behaviours"""
+    out = []
+    while len(out) < n:
+        cfg = cl.default_cfg(r, cap=4, handles=1)
+        pre = cl.connected_prefix()
+        sim = cl.Sim(cfg)
+        sc = list(pre)
+        nid = 0
+        if r.random() < 0.5:
+            sc.append(('S', nid, 'r', 10 * MS, 'f'))
+            nid += 1
+        for st in sc:
+            sim.apply(st)
+        cur = sim.out_tx()
+        nxt = sim.txid
+        frame = ('F', r.choice([nxt, nxt, cur if cur is not None else nxt, (nxt + 1) % 65536]), r.choice('geb'))
+        cmd = r.choice([('S', nid, 'r', 10 * MS, 'x'), ('D', 'x'), ('E', 'x'), ('L', 'max', 'x')])
+        pair = [('~',) + frame, cmd] if r.random() < 0.5 else [('~',) + cmd, frame]
+        tail = [('T', 10 * MS), ('F', sim.txid, 'g'), ('T', 10 * MS)]
+        out.append((cfg, sc + pair + tail))
+    return out
+
+
+def check_ties(ctx, n, cases=None):
+    cases = cases or gen_ties(ctx.rng, n)
+    impl = [cl.canon(x) for x in ctx.harness('client', [cl.to_line(c) for c in cases], shards=4)]
+    va, vb = zip(*[cl.tie_variants(c) for c in cases])
+    if cl.MODEL_OK:
+        ma = [cl.canon(x) for x in ctx.coq_eval(cl.REQUIRES, 'eval_case', [cl.to_coq(c) for c in va], case_type='case')]
+        mb = [cl.canon(x) for x in ctx.coq_eval(cl.REQUIRES, 'eval_case', [cl.to_coq(c) for c in vb], case_type='case')]
+    else:
+        ma = mb = impl
+    bad = 0
+    first = second = differ = 0
+    for c, i, a, b in zip(cases, impl, ma, mb):
+        differ += a != b
+        first += i == a and a != b
+        second += i == b and a != b
+        fails = cl.spec_failures(c, i)
+        if i not in (a, b) or fails:
+            bad += 1
+            if bad == 1:
+                ctx.violation(fails[0] if fails else 'model-differs-from-impl', f'script {cl.to_line(c)} (two branches ready at once): impl={i} is neither order of the model: {a} / {b}' + (f'; violates {fails}' if fails else ''),
+                              {'cases': [cl.case_json(c)], 'impl': i, 'model_orders': [a, b], 'failed_clauses': fails}, no_failing_input=not fails)
+    ctx.oblige('correspondence:select-ties-membership', bad == 0, f'{bad} of {len(cases)} (orders distinguishable in {differ}: first order taken {first}, second {second})')
+    return len(cases), {'tie-scripts': len(cases), 'tie-orders-distinguishable': differ, 'tie-first-order-observed': first, 'tie-second-order-observed': second}
+
+
 def run(ctx):
     if not cl.prepare(ctx):
         return
     r = ctx.rng
     exhaustive = False
+    if ctx.replay and 'cases' in ctx.replay and any(s[0] == '~' for j in ctx.replay['cases'] for s in j['script']):
+        check_ties(ctx, 0, [cl.case_from_json(j) for j in ctx.replay['cases']])
+        return
     if ctx.replay and 'cases' in ctx.replay:
         cases = [cl.case_from_json(j) for j in ctx.replay['cases']]
     else:
         cases = directed()
-        n = 2500 if ctx.quick() else 30000
+        n = 5000 if ctx.quick() else 30000
         while len(cases) < n:
             cfg = cl.default_cfg(r, cap=r.choice([1, 1, 2, 3, 4]))
             k = r.random()
@@ -95,11 +150,13 @@ def run(ctx):
                 cases.append((cfg, cl.gen_random(r, cfg, r.choice([6, 10, 14]), w, prefix=cl.connected_prefix(r.choice('fx')))))
         if ctx.tier == 'thorough':
             cfg = {'cap': 1, 'handles': 1, 'mt': 1, 'rmin': 20 * MS, 'rmax': 40 * MS}
-            for ln in range(1, 6):
-                for syms in itertools.product(SYMS, repeat=ln):
-                    if ln == 5 and syms[0] not in ('Sf', 'Sx'):
-                        continue          # length 5 only after a submit (the rest is covered by a shorter script plus a no-op)
-                    cases.append(concretize(cfg, cl.connected_prefix(), syms))
+            seen = set()
+            for alphabet in ALPHABETS:
+                for ln in range(1, 7):
+                    for syms in itertools.product(alphabet, repeat=ln):
+                        if syms not in seen:
+                            seen.add(syms)
+                            cases.append(concretize(cfg, cl.connected_prefix(), syms))
             exhaustive = True
     impl, model = cl.run_both(ctx, cases, shards=16)
     n_mis, n_spec = cl.judge(ctx, 'C10', cases, impl, model)
@@ -113,16 +170,20 @@ def run(ctx):
         if p:
             n_req += len([s for s in c[1] if s[0] == 'S'])
             n_done += len(p['comp'])
+    n_tie = 0
+    if not ctx.replay:
+        n_tie, tie_cls = check_ties(ctx, 200 if ctx.quick() else 2000)
+        classes.update(tie_cls)
     classes['requests-submitted'] = n_req
     classes['requests-completed'] = n_done
     need = ['result:Shutdown', 'result:NoConnection', 'result:Timeout', 'result:Io', 'result:BadFrame', 'result:Ok', 'step:A', 'step:H', 'step:X', 'style:x', 'style:c', 'task-done']
     if not ctx.replay and any(classes.get(k, 0) < 5 for k in need):
         ctx.oblige('generator-reaches-expected-classes', False, str(classes))
     ctx.coverage.update({
-        'evaluations': len(cases),
+        'evaluations': len(cases) + n_tie,
         'distinct_nontrivial': len(set(cl.to_line(c) for c, i in zip(cases, impl) if '|c' in i)),
         'rule': 'event scripts over the whole alphabet (directed scenarios first, then random scripts of up to 14 steps steered by a replica of the model'
-                + ('; plus every script over the reduced alphabet ' + ' '.join(SYMS) + ' up to length 4, and length 5 after a submit, following `E CO`' if exhaustive else '')
+                + ('; plus EVERY script up to length 6 over each of the reduced alphabets ' + ' / '.join(' '.join(a) for a in ALPHABETS) + ' following `E CO` (queue capacity 1, limit 1; F* = a frame with the outstanding tx id, T* = a tick to the next timer instant)' if exhaustive else '')
                 + '); non-trivial = at least one request completed; distinct by script text',
         'samples': [[cl.to_line(c), i] for c, i in list(zip(cases, impl))[:4]],
         'input_classes': dict(sorted(classes.items())),
